@@ -454,6 +454,13 @@ Definition update_queue_b (broken : list N) (pd : digest) (o : op) (q : alist (l
   end.
 Definition update_queue := update_queue_b [].
 
+(* a bye, or a disinvite from the room the session is in, ends the session once it is delivered *)
+Definition closing_for (x : sd) (m : smsg) : bool :=
+  match m with
+  | SBye _ => true
+  | SDisinvite r => match x.(d_room) with Some k => N.eqb (snd k) r | None => false end
+  | _ => false end.
+
 Definition step_C06 (ps : pstate) (o : op) (ob : obs) (dg : digest) : bool :=
   let pd := ps.(ps_prev) in
   match o with
@@ -475,7 +482,7 @@ Definition step_C06 (ps : pstate) (o : op) (ob : obs) (dg : digest) : bool :=
                         N.eqb sid n &&
                         (* ... up to a bye / disinvite that was waiting among them: that one ends the session, nothing
                            can be written after it *)
-                        (if existsb (fun m => match m with SBye _ | SDisinvite _ => true | _ => false end) rest
+                        (if existsb (closing_for x) rest
                          then list_eqb pair_eqb (smsg_tags rest) (firstn (length (smsg_tags rest)) queued)
                          else list_eqb pair_eqb (smsg_tags rest) queued)
                     | [SError 11] => true                 (* throttled *)
@@ -485,7 +492,7 @@ Definition step_C06 (ps : pstate) (o : op) (ob : obs) (dg : digest) : bool :=
                     | [SError 11] => true
                     | _ =>
                       (* a bye or a disinvite that was waiting in the queue ends the session once it is delivered *)
-                      if existsb (fun m => match m with SBye _ | SDisinvite _ => true | _ => false end) got then
+                      if existsb (closing_for x) got then
                         negb (live dg n) && nmem c ob.(o_closed)
                       else
                       match find_sd dg n with
